@@ -6,26 +6,72 @@ from specs.seqs import first_common_z, disjoint_z, no_common_before_z
 
 ASSUMPTIONS = [
     'hash, signature and DH/ECDH primitives are uninterpreted (collision resistance / EUF-CMA are crypto assumptions)',
-    'GSS key exchange call sites are not verified (library absent in the sandbox); _process_kexinit is verified with '
-    '_gss_kex off',
+    'GSS key exchange call sites are not verified (library absent in the sandbox); _process_kexinit and _send_kexinit '
+    'are verified with _gss_kex off (a precondition of the _send_kexinit contract, checked at its call site)',
     'is_client()/is_server() are abstracted by a ghost boolean _is_client of the connection (real code: not self._server)',
     'the hash object is a ghost accumulator: update(x) appends x, digest() = hash_of(everything appended); '
-    'packet.MPInt and int.from_bytes(signed=True) are uninterpreted (mpint_enc assumed injective, RFC 4251 5)',
+    'packet.MPInt and int.from_bytes(signed=True) are uninterpreted (mpint_enc assumed injective and self-delimiting, '
+    'RFC 4251 5: lemma transcript-injective proves injectivity of the transcript only for V_C, V_S, I_C, I_S, K_S and '
+    'treats gex_data||e||f||K as one remainder)',
     '_process_kexinit is verified as three consecutive regions [parse] [record] [negotiate]; every mid-condition is an '
-    'ensures of the preceding region (packet consumed completely; the eight name-list locals unchanged), and '
-    '[negotiate] is proved for arbitrary values of those locals.  Region contracts have no native replay: the bounded '
-    'native stand-in specs/c03_native.py supplies concrete failing inputs for them',
+    'ensures of the preceding region (packet consumed completely; the eight name-list locals unchanged) or a FRAME '
+    'obligation: [parse] modifies no connection field, [record] only the two KEXINIT fields / ext-info / strict-kex / '
+    'kexinit_sent / the re-key counters, so the configured lists _kex_algs/_enc_algs/_mac_algs/_cmp_algs, the host '
+    'key table and the role that [record] and [negotiate] read at THEIR entry are the function-entry values '
+    '(#frame obligations of the engine); [negotiate] is proved for arbitrary values of the locals.  Region contracts '
+    'have no native replay: the bounded native stand-in specs/c03_native.py supplies concrete failing inputs for them',
     'negotiation postconditions identify, for every recorded algorithm, the _choose_alg call (our list, the peer list of '
     'the same category and direction) whose result it is; what that call returns is the contract proved for '
-    '_choose_alg (first entry of the client list that the server list contains)',
+    '_choose_alg (first entry of the client list that the server list contains).  Server host key: '
+    'choose_server_host_key is under contract (first entry of the client list we have a key for; that key pair is '
+    'told to sign with that algorithm) and [negotiate] proves it is called once with name-list 2 of the payload; the '
+    'seeded variant that iterates the host key table (dict.items()) is outside the engine (UNSUPPORTED) and is caught '
+    'by the bounded native stand-in, which runs the real choose_server_host_key on random tables / client lists',
+    'F-C03-1 (known finding, not repaired): the CLIENT never compares the host key type / signature algorithm of the '
+    'REPLY with the negotiated host key algorithm; stated as call-site precondition '
+    'key-type-and-signature-algorithm-are-the-negotiated-host-key-algorithm of send_newkeys (kex_dh._verify_reply, '
+    'kex_rsa._process_done) over three uninterpreted spec functions; it is refuted on the unchanged tree by design',
     '_recv_version: the three banner / version limits are generalised to arbitrary positive integers (replays patch '
     'the module constants to the model values)',
+    'OUTSIDE THE CLAIM (audit finding 5, reproduced on the pinned tree by notes/audit/repro/c03_noncanonical_mpint.py): '
+    'byte edits that leave every negotiated parameter AND the hash input unchanged are not detected and the handshake '
+    'completes.  Exactly these classes: (a) non-minimal mpint encodings of e, f, p, g (redundant leading 0x00 / 0xff '
+    'bytes: SSHPacket.get_mpint decodes the value, the hash covers the canonical MPInt(value); contracts '
+    'value-from-packet / group-is-the-one-in-the-packet speak about the decoded value only); (b) the terminator of '
+    'the version line (CR LF vs lone LF: wire_exact allows both, V_C/V_S exclude the terminator by RFC 4253 4.2); '
+    '(c) banner lines inserted before the server version line (not part of V_S by RFC 4253 4.2); (d) alternative '
+    'encodings of the SAME signature accepted by key.verify (signature blob is not hashed; EUF-CMA, not strong '
+    'unforgeability); (e) the 16 cookie bytes and reserved fields ARE hashed (inside I_C/I_S) and are covered.  For '
+    '(a)-(d) the property reads: the handshake completes only with the negotiated parameters and equal session ids; '
+    'it does NOT read "every altered byte is detected"',
     'get_kex(conn, alg).algorithm == alg for non-GSS methods (Kex.__init__), encryption_needs_mac is a function of '
-    'its argument (table lookup): assumed callee contracts',
-    '_send_kexinit, send_newkeys, validate_server_host_key, key.verify/sign, DH/ECDH/PQ objects are callee stubs here '
-    '(send side: C02/C11).  send_newkeys call sites: kex_dh._verify_reply (client, pre-at-call verified), '
-    'kex_dh._perform_reply (server, consistency verified), kex_rsa._process_done (client, pre-at-call verified), '
-    'kex_rsa._process_secret (server) and the GSS handlers are NOT under contract',
+    'its argument (table lookup), kex.expand_kex_algs is a function of its three arguments, packet.NameList is an '
+    'uninterpreted encoding: assumed callee contracts (in-repo functions not under contract here)',
+    '_send_kexinit is under contract here from C03 point of view (send_kexinit_c03: advertised lists == lists '
+    'negotiated from, peer KEXINIT untouched) and is called from [record] through that contract; its phase / re-key '
+    'bookkeeping contract is c11_kexinit.send_kexinit (not reused: its wire clause reads the call log and so says '
+    'nothing about the peer field at call sites).  send_packet inside it is a stub (C02/C11 contracts), assumed not '
+    'to write the negotiation inputs',
+    'KEX*_INIT / KEX*_REPLY handlers: the virtual _parse_client_key/_parse_server_key are inlined from their real '
+    'source, one contract per implementation ([dh]: _KexDHBase, [ecdh]: _KexECDH, inherited unchanged by '
+    '_KexHybridECDH - class scan of kex_dh.py; the GSS subclasses override the handlers and are not verified); '
+    '_perform_reply / _verify_reply are called through their proved contracts; inside _perform_reply / _verify_reply '
+    'the virtual _compute_*_shared / _format_* calls are stubs whose outcomes and written fields are the union of '
+    'the three proved implementations (classic, ECDH, hybrid)',
+    'send_newkeys, validate_server_host_key, key.verify/sign, get_server_host_key (trivial getter, under contract), '
+    'DH/ECDH/PQ/RSA key objects are callee stubs here (send side: C02/C11).  send_newkeys call sites: '
+    'kex_dh._verify_reply (client, pre-at-call verified), kex_dh._perform_reply (server, consistency verified), '
+    'kex_rsa._process_done (client, pre-at-call verified), kex_rsa._process_secret (server, consistency verified); '
+    'the GSS handlers are NOT under contract',
+    'kex_rsa: _process_secret requires "a server has run start()" (transient key exists): start() is under contract '
+    '(establishes it) and _process_kexinit awaits start() before any packet can reach the new kex object '
+    '(selected-kex-started-once); a repeated KEXRSA_PUBKEY on the client is not excluded (message-order, C06)',
+    'not covered (honest list): first_kex_packet_follows: [negotiate] proves the two RFC 4253 7 consequences '
+    '"skip only an announced guess" and "a guess for another kex method is skipped"; asyncssh judges the guess by '
+    'the kex method only, the RFC also counts the host key algorithm (a mismatch desynchronises and fails the '
+    'exchange, it does not downgrade): not stated; gex_select restates the table '
+    'walk of _process_request (client min ignored, smallest group returned when max < 1024; RFC 4419 3 wants '
+    'min <= size <= max); exactly-once / order of kex messages is C06',
 ]
 
 CONN = {'_is_client': 'bool'}
@@ -189,6 +235,8 @@ KI_CONN = {
     '_cmp_alg_cs': 'bytes', '_cmp_alg_sc': 'bytes',
     # server only: host key table (algorithm name -> key pair) and the key pair chosen for this exchange
     '_server_host_keys': 'dict[bytes,obj:KeyPair]', '_server_host_key': 'opt[obj:KeyPair]',
+    # re-key bookkeeping written by _send_kexinit (C11's business; here only so that its frame can be stated)
+    '_kex_complete': 'bool', '_rekey_bytes_sent': 'int', '_rekey_seconds': 'int', '_rekey_time': 'int',
 }
 KI_CLASSES = dict(PACKET_CLASSES, SSHConnection=KI_CONN, Kex={'algorithm': 'bytes'}, Encryption={},
                   GSS={'mechs': 'seq[bytes]'}, KeyPair={'algorithm': 'bytes'})
@@ -272,13 +320,68 @@ def ki_payload(c):
     return c.old_state.rec(c.argv('packet')).fields['_packet'].z
 
 
-def ki_send_kexinit(cx):
-    """_send_kexinit (own contract elsewhere): builds and records OUR KEXINIT payload, sends it"""
-    own = '_client_kexinit' if z3.is_true(z3.simplify(cx.selff('_is_client').z)) else '_server_kexinit'
-    return [Out(sets={own: cx.fresh('bytes', 'own_kexinit')}, event=('send_kexinit', ()))]
+# ----- _send_kexinit from C03's point of view (its phase / re-key bookkeeping is C11's, c11_kexinit.py): the KEXINIT
+# we send - and record as our own I_C / I_S for the hash - advertises exactly the lists the negotiation in
+# _process_kexinit chooses from (same _enc_algs/_mac_algs/_cmp_algs in both directions, the same expansion of
+# _kex_algs plus the strict-kex / ext-info markers, our host key algorithms), and the PEER's recorded KEXINIT and the
+# configured lists are not touched.  _process_kexinit[record] calls it through this contract (contract_stub).
+_expand = z3.Function('expand_kex_algs', z3.SeqSort(BytesS), z3.SeqSort(BytesS), BoolS, z3.SeqSort(BytesS))
+_namelist_enc = z3.Function('namelist_enc', z3.SeqSort(BytesS), BytesS)
+_EMPTY_LIST = z3.Empty(z3.SeqSort(BytesS))
+_T_SEQB = parse_type('seq[bytes]')
 
 
-ki_send_kexinit.modifies = ('_client_kexinit', '_server_kexinit')
+def _seqz(cx_or_ex, st, v):
+    v = cx_or_ex.deref(st, v)
+    return v.z if isinstance(v, VSeq) else to_z3(v, _T_SEQB)
+
+
+def expand_stub(cx):
+    """kex.expand_kex_algs is a function of its arguments (pure list expansion; GSS entries only with mechanisms)"""
+    r = cx.fresh('seq[bytes]', 'expanded_kex_algs')
+    a = cx.args
+    return [Out(ret=r, assume=[r.z == _expand(_seqz(cx.ex, cx.st, a[0]), _seqz(cx.ex, cx.st, a[1]),
+                                                cx.ex.truthy(cx.st, a[2]))])]
+
+
+def namelist_stub(cx):
+    """packet.NameList: an uninterpreted encoding of the list"""
+    r = cx.fresh('bytes', 'namelist')
+    return [Out(ret=r, assume=[r.z == _namelist_enc(_seqz(cx.ex, cx.st, cx.args[0]))])]
+
+
+expand_stub.modifies = ()
+namelist_stub.modifies = ()
+
+
+def sk_own_peer(c):
+    isc = ki_is_client(c)
+    return ('_client_kexinit', '_server_kexinit') if isc else ('_server_kexinit', '_client_kexinit')
+
+
+def sk_advertised(c):
+    own, _peer = sk_own_peer(c)
+    rnd, extra, sp = c.calls('os.urandom'), c.calls('_get_extra_kex_algs'), c.calls('send_packet')
+    if not all(len(x) == 1 for x in (rnd, extra, sp)):
+        return z3.BoolVal(False)
+    hk = c.old('_server_host_key_algs')
+    have_hk = z3.Length(hk) > 0
+    kex = z3.Concat(_expand(c.old('_kex_algs'), _EMPTY_LIST, have_hk), extra[0]['ret'].z)
+    hk_adv = z3.If(have_hk, hk, z3.Unit(bytes_const(b'null')))
+    N = _namelist_enc
+    enc, mac, cmp_ = c.old('_enc_algs'), c.old('_mac_algs'), c.old('_cmp_algs')
+    body = z3.Concat(rnd[0]['ret'].z, N(kex), N(hk_adv), N(enc), N(enc), N(mac), N(mac), N(cmp_), N(cmp_),
+                     N(_EMPTY_LIST), N(_EMPTY_LIST), z3.Unit(z3.IntVal(0)), be(z3.IntVal(4), z3.IntVal(0)))
+    return z3.And(z3.Length(rnd[0]['ret'].z) == 16, c.new(own) == z3.Concat(z3.Unit(z3.IntVal(20)), body),
+                  sp[0]['args'][0].z == 20, sp[0]['args'][1].z == body)
+
+
+def sk_peer_untouched(c):
+    _own, peer = sk_own_peer(c)
+    return c.new(peer) == c.old(peer)
+
+
+KI_SEND_WRITES = ['_kex_complete', '_rekey_bytes_sent', '_rekey_time', '_client_kexinit', '_server_kexinit']
 
 
 def ki_get_kex(cx):
@@ -357,11 +460,20 @@ def hk_post(c):
     if ch is None:
         # no table entry was selected on this path: only acceptable when nothing on the client's list is supported
         return z3.And(z3.Not(ok), hk_none_before(peer, m.dom, z3.Length(peer)))
-    alg, ref, isnone = ch
+    alg, _ref, isnone = ch
+    return z3.And(ok, z3.Not(isnone), hk_first_supported(peer, m.dom, alg))
+
+
+def hk_signs_with_it(c):
+    """the chosen key pair signs with the negotiated algorithm: it is its own algorithm, or it was told to use it
+    (one RSA key pair serves ssh-rsa / rsa-sha2-256 / rsa-sha2-512)"""
+    ch = hk_chosen_alg(c)
+    if ch is None:
+        return z3.Not(c.truthy(c.result_v))
+    alg, ref, _isnone = ch
     told = [z3.And(z3.BoolVal(isinstance(x['recv'], VRef) and x['recv'].addr == ref.addr), x['args'][0].z == alg)
             for x in c.calls('set_sig_algorithm')]
-    return z3.And(ok, z3.Not(isnone), hk_first_supported(peer, m.dom, alg),
-                  z3.Or(alg == c.new('algorithm', ref), *told))
+    return z3.Or(alg == c.new('algorithm', ref), *told)
 
 
 def hk_unsupported_frame(c):
@@ -381,6 +493,7 @@ choose_server_host_key = Spec(
                            hk_none_before(c.extra['iter'].z, hk_map(c).dom, c.extra['i']),
                            c.eq(c.oldv('_server_host_key'), c.newv('_server_host_key'))))},
     ensures=[('host-key-is-the-first-client-preferred-algorithm-we-have-a-key-for', hk_post),
+             ('chosen-key-pair-signs-with-the-negotiated-algorithm', hk_signs_with_it),
              ('false-iff-no-common-algorithm;then-nothing-chosen', hk_unsupported_frame)],
     modifies=['_server_host_key'], returns='bool')
 choose_server_host_key.no_replay = True        # key pair objects / host key table are abstract
@@ -456,9 +569,9 @@ def ki_first_follows(c):
 
 
 KI_STUBS = dict(ROLE_STUBS, **{
-    'self._send_kexinit': ki_send_kexinit,
+    'self._send_kexinit': contract_stub(lambda: send_kexinit_c03),
     'self._gss.reset': noop(),
-    'expand_kex_algs': ret('seq[bytes]', 'local_kex_algs'),
+    'expand_kex_algs': expand_stub,
     'self._choose_alg': contract_stub(lambda: choose_alg_bytes),
     'get_kex': ki_get_kex,
     # modular call: contract proved above (first client-preferred algorithm we have a key for)
@@ -470,6 +583,18 @@ KI_STUBS = dict(ROLE_STUBS, **{
 KI_CASES = [('client', {'_is_client': True, '_gss_kex': False}), ('server', {'_is_client': False, '_gss_kex': False})]
 KI_PARAMS = dict(_pkttype='int', _pktid='int', packet='obj:SSHPacket')
 KI_INLINE = dict(PACKET_INLINE, **{'SSHPacket.get_namelist': ('packet', 'SSHPacket.get_namelist')})
+
+send_kexinit_c03 = Spec(
+    'C03', 'connection', 'SSHConnection._send_kexinit', self_class='SSHConnection', classes=KI_CLASSES, cases=KI_CASES,
+    stubs=dict(ROLE_STUBS, **{'expand_kex_algs': expand_stub, 'NameList': namelist_stub,
+                              'self._get_extra_kex_algs': ret('seq[bytes]', 'extra_kex_algs'),
+                              'self.send_packet': noop('send_packet')}),
+    # (verified for the two role cases with GSS off; the restriction is a precondition, checked at call sites)
+    requires=lambda c: z3.Not(c.old('_gss_kex')),
+    ensures=[('our-KEXINIT-advertises-the-lists-we-negotiate-from;recorded-payload-is-the-one-sent', sk_advertised)],
+    always=[('peer-kexinit-untouched', sk_peer_untouched)],
+    modifies=KI_SEND_WRITES)
+send_kexinit_c03.no_replay = True      # NameList / expand_kex_algs are uninterpreted
 
 kexinit_parse = RSpec(
     'C03', 'connection', 'SSHConnection._process_kexinit', self_class='SSHConnection',
@@ -509,13 +634,16 @@ def ki_own_kexinit(c):
     sent = c.calls('_send_kexinit')
     if not sent:
         return c.new(own) == c.old(own)
-    return z3.And(z3.BoolVal(len(sent) == 1), c.new(own) == sent[0]['sets'][own].z)
+    return z3.And(z3.BoolVal(len(sent) == 1 and sent[0]['exc'] is None), c.new(own) == sent[0]['sets'][own].z)
 
 
 def ki_local_kex_list(c):
     """the list we negotiate the kex method from is derived from our configured _kex_algs"""
     e = c.calls('expand_kex_algs')
-    return z3.And(z3.BoolVal(len(e) == 1), e[0]['args'][0].z == c.old('_kex_algs'), c.local('kex_algs') == e[0]['ret'].z)
+    return z3.And(z3.BoolVal(len(e) == 1), e[0]['args'][0].z == c.old('_kex_algs'), c.local('kex_algs') == e[0]['ret'].z,
+                  # ... by the very expansion whose result our own KEXINIT advertised (sk_advertised)
+                  c.local('kex_algs') == _expand(c.old('_kex_algs'), _EMPTY_LIST,
+                                                 z3.Length(c.old('_server_host_key_algs')) > 0))
 
 
 def ki_locals_kept(c):
@@ -524,7 +652,8 @@ def ki_locals_kept(c):
                   [c.local('first_kex_follows') == c.arg('first_kex_follows')])
 
 
-KI_RECORD_WRITES = ['_client_kexinit', '_server_kexinit', '_can_send_ext_info', '_strict_kex', '_kexinit_sent']
+KI_RECORD_WRITES = ['_client_kexinit', '_server_kexinit', '_can_send_ext_info', '_strict_kex', '_kexinit_sent',
+                    '_kex_complete', '_rekey_bytes_sent', '_rekey_time']      # the last three: through _send_kexinit
 
 kexinit_record = RSpec(
     'C03', 'connection', 'SSHConnection._process_kexinit', self_class='SSHConnection',
@@ -589,6 +718,18 @@ def ki_started(c):
     return z3.BoolVal(len(ev) == 1 and isinstance(kex, VRef) and ev[0][1][0].addr == kex.addr)
 
 
+def ki_first_kex(c):
+    """RFC 4253 7: the packet that follows a KEXINIT with first_kex_packet_follows is ignored iff the guess was
+    wrong; a guess whose kex method is not the negotiated one is wrong.  Two consequences (the flag consumed here is
+    the one [parse] proved to be the boolean of the payload): nothing is skipped unless the peer announced a guess,
+    and a guess for a different kex method is skipped."""
+    ff = c.arg('first_kex_follows')
+    peer = c.arg('peer_kex_algs')
+    alg = c.new_state.rec(c.newv('_kex')).fields['algorithm'].z
+    ign = c.new('_ignore_first_kex')
+    return z3.And(z3.Implies(ign, ff), z3.Implies(z3.And(ff, peer[0] != alg), ign))
+
+
 def ki_host_key(c):
     """server: the host key algorithm is negotiated exactly once, from the CLIENT's server_host_key_algorithms list
     (the local that [parse] proved to be name-list 2 of the payload) - what choose_server_host_key then selects is
@@ -617,7 +758,8 @@ kexinit_negotiate = RSpec(
              ('cmp-cs-from-cs-lists', ki_negotiated('_cmp_alg_cs', F_CMP_CS)),
              ('cmp-sc-from-sc-lists', ki_negotiated('_cmp_alg_sc', F_CMP_SC)),
              ('selected-kex-started-once', ki_started),
-             ('host-key-chosen-once-from-the-client-list', ki_host_key)],
+             ('host-key-chosen-once-from-the-client-list', ki_host_key),
+             ('wrong-kex-guess-is-skipped,nothing-else-is', ki_first_kex)],
     raises={'KeyExchangeFailed': True, 'UnicodeDecodeError': True},
     modifies=['_kex', '_ignore_first_kex', '_enc_alg_cs', '_enc_alg_sc', '_mac_alg_cs', '_mac_alg_sc', '_cmp_alg_cs',
               '_cmp_alg_sc', '_server_host_key'])
@@ -660,7 +802,8 @@ get_hash_prefix = Spec(
 KEX_FIELDS = {'_conn': 'obj:Conn', '_gex_data': 'bytes', '_e': 'int', '_f': 'int', '_p': 'int', '_g': 'int',
               '_dh': 'opt[obj:DH]', '_init_type': 'int', '_reply_type': 'int', '_group_type': 'int',
               '_client_pub': 'bytes', '_server_pub': 'bytes', '_priv': 'obj:ECDHKey'}
-KEX_CLASSES = {'_KexDHBase': KEX_FIELDS, '_KexDHGex': KEX_FIELDS, '_KexECDH': KEX_FIELDS, 'Conn': {'_is_client': 'bool'},
+KEX_CONN = {'_is_client': 'bool', '_server_host_key_algs': 'seq[bytes]', '_server_kexinit': 'bytes'}
+KEX_CLASSES = {'_KexDHBase': KEX_FIELDS, '_KexDHGex': KEX_FIELDS, '_KexECDH': KEX_FIELDS, 'Conn': KEX_CONN,
                'DH': {}, 'ECDHKey': {}, 'Hash': {'ghost_acc': 'bytes'}, 'Key': {'public_data': 'bytes'}}
 
 
@@ -807,6 +950,31 @@ def _prior(cx, name):
     return [x for x in cx.st.calls if x['key'].endswith(name)]
 
 
+# ----- client side of "each negotiated algorithm is the first one on the client's list that the server also
+# supports", for the server host key algorithm.  Spec functions (RFC 4253 7.1 / 6.6, RFC 8332 3, PROTOCOL.certkeys):
+#   negotiated_host_key_alg(L, I_S) = first entry of the client's offered list L that name-list 2 of the server's
+#                                     KEXINIT payload I_S contains;
+#   sig_alg_of(a)                   = signature algorithm that host key algorithm a prescribes (a itself for plain
+#                                     keys, e.g. rsa-sha2-512 for rsa-sha2-512-cert-v01@openssh.com / x509v3-...);
+#   key_blob_matches(K_S, a)        = the key / certificate type at the head of K_S is the one a prescribes.
+# They are left uninterpreted: NOTHING in asyncssh's client relates the REPLY to them (finding F-C03-1, native repro
+# notes/findings/c03_client_host_key_alg_not_enforced.py), so the obligation below is refuted on the unchanged tree
+# and is recorded in known_findings.json; it is stated so that the gap stays visible and closes when the code does.
+_neg_hk = z3.Function('negotiated_host_key_alg', z3.SeqSort(BytesS), BytesS, BytesS)
+_sig_alg_of = z3.Function('sig_alg_of_host_key_alg', BytesS, BytesS)
+_blob_matches = z3.Function('key_blob_matches_host_key_alg', BytesS, BytesS, BoolS)
+
+
+def require_negotiated_host_key_alg(cx, key_data, sig):
+    conn = cx.selff('_conn')
+    offered = cx.ex.get_field(cx.st, conn, '_server_host_key_algs').z
+    i_s = cx.ex.get_field(cx.st, conn, '_server_kexinit').z
+    neg = _neg_hk(offered, i_s)
+    sig_alg = z3.Extract(sig, 4, unbe(z3.Extract(sig, 0, 4)))      # signature blob = string algorithm || ...
+    cx.require('key-type-and-signature-algorithm-are-the-negotiated-host-key-algorithm',
+               z3.And(sig_alg == _sig_alg_of(neg), _blob_matches(key_data, neg)))
+
+
 def send_newkeys_after_verify(cx):
     """Call-site precondition of SSHConnection.send_newkeys(k, h) on the client path: the host key's signature over
     exactly this h was checked (verify returned true) in the same activation, h is the exchange hash of exactly
@@ -823,6 +991,8 @@ def send_newkeys_after_verify(cx):
                     hs[0]['ret'].z == h, hs[0]['args'][0].z == key_data, hs[0]['args'][1].z == k,
                     ks[0]['ret'].z == k)
     cx.require('signature-over-this-H-verified-first', ok)
+    if 'key_data' in cx.st.env and 'sig' in cx.st.env:
+        require_negotiated_host_key_alg(cx, cx.st.env['key_data'].z, cx.st.env['sig'].z)
     return [Out(event=('send_newkeys', tuple(cx.args)))]
 
 
@@ -1097,7 +1267,7 @@ def _process_init_spec(tag, cls, fld, dec, impl):
         P = pkt(c)['_packet'].z
         v, end = wire_string(P, z3.IntVal(1))
         return z3.And(c.new(fld) == dec(v), end == z3.Length(P), consumed(c))
-    sp = RSpec(
+    sp = (Spec if tag == 'dh' else RSpec)(     # (the classic variant keeps the untagged obligation names)
         'C03', 'kex_dh', '_KexDHBase._process_init', self_class=cls, params=KEXP_PARAMS, classes=KEXP_CLASSES,
         truthy=PACKET_TRUTHY,
         inline=dict(GEX_INLINE, **{'self._parse_client_key': ('kex_dh', impl + '._parse_client_key')}),
@@ -1137,15 +1307,20 @@ def _process_reply_spec(tag, cls, fld, dec, impl):
         return z3.And(c.new(fld) == dec(v), end == z3.Length(P), consumed(c))
 
     def checked(c):
-        """the key that verifies is the one validated for the K_S of the packet; K_S and the signature handed on
-        are the packet's fields"""
+        """the key that verifies is the one validated for the K_S that is hashed"""
+        v, vr = c.calls('validate_server_host_key'), c.calls('_verify_reply')
+        if len(v) != 1 or len(vr) != 1:
+            return z3.BoolVal(False)
+        return z3.And(c.eq(vr[0]['args'][0], v[0]['ret']), vr[0]['args'][1].z == v[0]['args'][0].z)
+
+    def wire(c):
+        """... and that K_S and the signature handed on are the packet's fields"""
         _P, ks, _v, sig, _end = fields(c)
         v, vr = c.calls('validate_server_host_key'), c.calls('_verify_reply')
         if len(v) != 1 or len(vr) != 1:
             return z3.BoolVal(False)
-        return z3.And(c.eq(vr[0]['args'][0], v[0]['ret']), v[0]['args'][0].z == ks, vr[0]['args'][1].z == ks,
-                      vr[0]['args'][2].z == sig)
-    sp = RSpec(
+        return z3.And(v[0]['args'][0].z == ks, vr[0]['args'][2].z == sig)
+    sp = (Spec if tag == 'dh' else RSpec)(
         'C03', 'kex_dh', '_KexDHBase._process_reply', self_class=cls, params=KEXP_PARAMS, classes=KEXP_CLASSES,
         truthy=PACKET_TRUTHY,
         inline=dict(GEX_INLINE, **{'self._parse_server_key': ('kex_dh', impl + '._parse_server_key')}),
@@ -1157,7 +1332,8 @@ def _process_reply_spec(tag, cls, fld, dec, impl):
             'self._verify_reply': contract_stub(lambda: verify_reply)}),
         ensures=[('only-a-client-accepts-REPLY', conn_is_client),
                  ('server-value-is-the-wire-field;REPLY-consumed-completely', received),
-                 ('K_S,signature-are-the-wire-fields;verified-key-is-the-validated-one', checked)] +
+                 ('verified-key-is-the-validated-one-for-the-hashed-blob', checked),
+                 ('K_S,signature-handed-on-are-the-wire-fields', wire)] +
                 ([('f-accepted-only-with-a-group-installed', lambda c: c.old('_p') != 0)] if tag == 'dh' else []),
         always=[('REPLY-on-a-server-is-fatal-and-inert', lambda c: z3.Implies(z3.Not(conn_is_client(c)), z3.And(
             z3.BoolVal(c.raised == 'ProtocolError'), untouched(c, fld),
@@ -1192,7 +1368,7 @@ perform_init.no_replay = True
 # ===================================================================== kex_rsa.py (RFC 4432): same two obligations
 RSA_FIELDS = {'_conn': 'obj:Conn', '_host_key_data': 'bytes', '_trans_key_data': 'bytes', '_encrypted_k': 'bytes',
               '_k': 'int'}
-RSA_CLASSES = dict(PACKET_CLASSES, _KexRSA=RSA_FIELDS, Conn={'_is_client': 'bool'}, Hash={'ghost_acc': 'bytes'},
+RSA_CLASSES = dict(PACKET_CLASSES, _KexRSA=RSA_FIELDS, Conn=KEX_CONN, Hash={'ghost_acc': 'bytes'},
                    Key={'public_data': 'bytes'})
 
 rsa_compute_hash = Spec(
@@ -1221,6 +1397,8 @@ def rsa_newkeys_after_verify(cx):
                     cx.ex.truthy(cx.st, ver[0]['ret']), ver[0]['args'][0].z == h, ver[0]['args'][1].z == sig,
                     hs[0]['ret'].z == h, k == _mpint(cx.selff('_k').z))
     cx.require('signature-over-this-H-verified-first', ok)
+    if 'sig' in cx.st.env:
+        require_negotiated_host_key_alg(cx, cx.selff('_host_key_data').z, cx.st.env['sig'].z)
     return [Out(event=('send_newkeys', tuple(cx.args)))]
 
 
@@ -1298,21 +1476,17 @@ rsa_process_pubkey.no_replay = True
 def rsa_start_post(c):
     """server: K_S is the public blob of the host key chosen in the negotiation, K_T the blob of the fresh transient
     key; PUBKEY carries exactly those two strings (they are what _compute_hash hashes)"""
-    if ki_conn_is_client_const(c):
-        return z3.And(z3.BoolVal(not c.calls('send_packet')), untouched_fields(c, *RSA_HASHED))
     hk, gen, sp = c.calls('get_server_host_key'), c.calls('generate_private_key'), c.calls('send_packet')
-    if not all(len(x) == 1 for x in (hk, gen, sp)) or not isinstance(hk[0]['ret'], VOpt):
-        return z3.BoolVal(False)
-    tk = c.newv('_trans_key')
-    return z3.And(z3.Not(tk.isnone), c.eq(tk.val, gen[0]['ret']),
-                  c.new('_host_key_data') == c.new('public_data', hk[0]['ret'].val),
-                  c.new('_trans_key_data') == c.new('public_data', gen[0]['ret']),
-                  sp[0]['args'][1].z == ssh_string_z(c.new('_host_key_data')),
-                  sp[0]['args'][2].z == ssh_string_z(c.new('_trans_key_data')))
-
-
-def ki_conn_is_client_const(c):
-    return z3.is_true(z3.simplify(conn_is_client(c)))
+    client_ok = z3.And(z3.BoolVal(not sp), untouched_fields(c, *RSA_HASHED))
+    server_ok = z3.BoolVal(False)
+    if all(len(x) == 1 for x in (hk, gen, sp)) and isinstance(hk[0]['ret'], VOpt):
+        tk = c.newv('_trans_key')
+        server_ok = z3.And(z3.Not(c.is_none(tk)), c.eq(tk.val if isinstance(tk, VOpt) else tk, gen[0]['ret']),
+                           c.new('_host_key_data') == c.new('public_data', hk[0]['ret'].val),
+                           c.new('_trans_key_data') == c.new('public_data', gen[0]['ret']),
+                           sp[0]['args'][1].z == ssh_string_z(c.new('_host_key_data')),
+                           sp[0]['args'][2].z == ssh_string_z(c.new('_trans_key_data')))
+    return z3.If(conn_is_client(c), client_ok, server_ok)
 
 
 def untouched_fields(c, *flds):
@@ -1322,7 +1496,6 @@ def untouched_fields(c, *flds):
 rsa_start = Spec(
     'C03', 'kex_rsa', '_KexRSA.start', self_class='_KexRSA',
     classes=dict(RSA2_CLASSES, _KexRSA=dict(RSA2_FIELDS, _key_size='int'), RSAKey={'public_data': 'bytes'}),
-    cases=[('client', {}), ('server', {})],
     stubs=dict(CONN_ROLE_STUBS, **{
         '*.get_server_host_key': ret('opt[obj:Key]', 'host_key'),
         'generate_private_key': ret('obj:RSAKey', 'trans_key'), 'self.send_packet': noop('send_packet')}),
